@@ -29,7 +29,8 @@ TRUSTED = [
     "semantics of np.pad(...,'symmetric'), slicing, np.concatenate as modelled in Model/Stft.lean (symPad, drop/take, ++)",
     "`_compute_frame` is a pure function of the frame it is given (read off the source; exercised by the runs)",
     "tracer components harness/tracers.py (DCBank, IntWindow) make the frame contents observable as integers",
-    "short-integration computer: circConv stands for rfft*multiply*irfft (convolution theorem trusted); see C03",
+    "short-integration computer: circConv stands for rfft*multiply*irfft; that the DFT product is the circular convolution is proved "
+    "(C03.circConv_eq_idft_dft_mul over Lemmas/Dft.lean), that NumPy's FFT routines compute the documented DFT is trusted; see C03",
 ]
 ASSUMPTIONS = [
     "theorem scope: 1 <= frame_shift <= frame_length (the property's STFT precondition)",
@@ -47,7 +48,7 @@ LEVEL_TEXT = (
 )
 LEVEL_NOTE = (
     "Trusted: np.pad symmetric / slicing semantics as modelled; tracer bank+window; Lean kernel + std axioms. "
-    "Short-integration: FFT convolution theorem trusted (model uses direct circular convolution). Float round-off is "
+    "Short-integration: NumPy FFT = documented DFT trusted (the convolution theorem itself is proved, C03). Float round-off is "
     "outside every theorem."
 )
 TECHNIQUE = "Lean 4 refinement proof (stream = full for all chunkings) + exact-integer correspondence via tracer bank"
